@@ -165,6 +165,8 @@ class Xor(pg.Xor):
                 default=default, 
                 variable=any_proposition.variable
             )
+            # the id is still the generated one of the replaced proposition
+            self.propositions[i].generated_id = any_proposition.generated_id
             
 
     def to_json(self):
